@@ -271,6 +271,13 @@ def judge_structure(ctx, df, ix, truth, tcols, n, var_env, var_rep, var_err, sit
                 eff = arr[multi]
             else:
                 eff = arr
+            if len(eff) == 1 and name == "environment":
+                # a single-environment trial: its one effect is a draw from a continuous distribution, not 0
+                if sigma2 ** 0.5 >= 1e9 * q:
+                    ctx.check("C14.independence", abs(float(eff[0])) > q, site, REL_INDEP[name], icls,
+                              what="single-environment trial, trait %d (requested stratum variance %.4g): the environment's effect is exactly 0" % (j, sigma2),
+                              witness=dict(w, effect=float(eff[0])), coords=coords)
+                continue
             if len(eff) < 2:
                 continue
             if sigma2 ** 0.5 < 1e4 * q:
